@@ -23,7 +23,7 @@ use std::collections::{BTreeMap, HashMap};
 use std::sync::{Arc, Mutex};
 use std::time::Duration;
 
-use crate::cfg::{CODE_SYNCS_BEFORE_DROP, CODE_WAL_FORMAT};
+use crate::cfg::{CODE_SYNCS_BEFORE_DROP, CODE_TICK_SYNCS, CODE_WAL_FORMAT};
 
 #[derive(Clone, Debug, PartialEq)]
 pub enum Outcome {
@@ -172,8 +172,18 @@ impl WalStore for FaultStore {
         Ok(self.inner.lock().unwrap().files.keys().cloned().collect())
     }
     fn delete(&self, name: &str) -> Result<(), WalError> {
-        self.inner.lock().unwrap().files.remove(name);
-        Ok(())
+        let mut s = self.inner.lock().unwrap();
+        let o = s.next();
+        let ok = o == Outcome::Ok;
+        if ok {
+            s.files.remove(name);
+        }
+        s.record(format!("d{}:{}", parse_seq(name).unwrap_or(u64::MAX), if ok { "ok" } else { "err" }));
+        if ok {
+            Ok(())
+        } else {
+            Err(io_err("injected delete failure"))
+        }
     }
     fn exists(&self, name: &str) -> Result<bool, WalError> {
         Ok(self.inner.lock().unwrap().files.contains_key(name))
@@ -188,11 +198,49 @@ struct W {
     data: Vec<u8>,
 }
 
+/// every public message of `WalActorHandle`
+#[derive(Clone)]
+enum Msg {
+    Durable(W),    // write_durable
+    Forget(W),     // write_fire_and_forget
+    Tick,          // sync_tick
+    Truncate(u64), // truncate
+}
+
+impl Msg {
+    fn kind(&self) -> &'static str {
+        match self {
+            Msg::Durable(_) => "write_durable",
+            Msg::Forget(_) => "write_fire_and_forget",
+            Msg::Tick => "sync_tick",
+            Msg::Truncate(_) => "truncate",
+        }
+    }
+    fn write(&self) -> Option<&W> {
+        match self {
+            Msg::Durable(w) | Msg::Forget(w) => Some(w),
+            _ => None,
+        }
+    }
+}
+
 struct Workload {
     max_size: usize,
     max_entries: usize,
     faults: Vec<(usize, Outcome)>,
-    groups: Vec<Vec<W>>,
+    groups: Vec<Vec<Msg>>,
+}
+
+impl Workload {
+    fn writes(&self) -> Vec<&W> {
+        self.groups.iter().flatten().filter_map(|m| m.write()).collect()
+    }
+    fn durable(&self) -> Vec<&W> {
+        self.groups.iter().flatten().filter_map(|m| if let Msg::Durable(w) = m { Some(w) } else { None }).collect()
+    }
+    fn max_truncate(&self) -> Option<u64> {
+        self.groups.iter().flatten().filter_map(|m| if let Msg::Truncate(t) = m { Some(*t) } else { None }).max()
+    }
 }
 
 fn mk_write(id: u64, ts: u64, vlen: usize) -> W {
@@ -239,21 +287,45 @@ fn run_real(wl: &Workload) -> RunResult {
         let (handle, task) = spawn_wal_actor(st2.clone(), cfg).expect("spawn actor");
         let mut acks = Vec::new();
         for g in groups {
-            // a burst of concurrent durable writers
+            // a burst of concurrent callers: tasks run in spawn order, so the messages reach the
+            // mailbox in this order, all before the actor handles the first of them
             let mut js = Vec::new();
-            for w in g {
+            for m in g {
                 let h = handle.clone();
                 let st3 = st2.clone();
                 js.push(tokio::spawn(async move {
-                    let r = h.write_durable(w.delta.clone(), w.ts).await;
-                    (w.id, ack_name(&r), st3.calls())
+                    match m {
+                        Msg::Durable(w) => {
+                            let r = h.write_durable(w.delta.clone(), w.ts).await;
+                            Some((w.id, ack_name(&r), st3.calls()))
+                        }
+                        Msg::Forget(w) => {
+                            h.write_fire_and_forget(w.delta.clone(), w.ts);
+                            None
+                        }
+                        Msg::Tick => {
+                            h.sync_tick();
+                            None
+                        }
+                        Msg::Truncate(t) => {
+                            h.truncate(t);
+                            None
+                        }
+                    }
                 }));
             }
             for j in js {
-                acks.push(j.await.expect("writer task"));
+                if let Some(a) = j.await.expect("caller task") {
+                    acks.push(a);
+                }
             }
+            // callers that wait for nothing (tick, truncate, fire-and-forget) return at once: let the
+            // actor finish this burst (incl. its group-commit wait) before the next one is sent.
+            // The clock is paused, so this costs no real time.
+            tokio::time::sleep(Duration::from_millis(10)).await;
         }
         handle.shutdown().await;
+        drop(handle); // the actor only stops when every sender is gone
         let _ = task.await;
         acks
     });
@@ -276,23 +348,31 @@ fn recover_ids(img: &[(String, Vec<u8>)], by_data: &HashMap<Vec<u8>, u64>, max: 
 }
 
 fn op_line(wl: &Workload) -> String {
-    let mut s = format!("G {} {} {} {} F {}", CODE_SYNCS_BEFORE_DROP as u8, CODE_WAL_FORMAT, wl.max_size, wl.max_entries, wl.faults.len());
+    let mut s = format!("G {} {} {} {} {} F {}", CODE_SYNCS_BEFORE_DROP as u8, CODE_TICK_SYNCS as u8, CODE_WAL_FORMAT, wl.max_size, wl.max_entries, wl.faults.len());
     for (i, o) in &wl.faults {
         s.push_str(&format!(" {} {}", i, o.show()));
     }
     s.push_str(&format!(" W {}", wl.groups.len()));
     for g in &wl.groups {
         s.push_str(&format!(" {}", g.len()));
-        for w in g {
-            s.push_str(&format!(" {} {} {}", w.id, w.ts, hex(&w.data)));
+        for m in g {
+            match m {
+                Msg::Durable(w) => s.push_str(&format!(" w {} {} {}", w.id, w.ts, hex(&w.data))),
+                Msg::Forget(w) => s.push_str(&format!(" f {} {} {}", w.id, w.ts, hex(&w.data))),
+                Msg::Tick => s.push_str(" t"),
+                Msg::Truncate(t) => s.push_str(&format!(" x {}", t)),
+            }
         }
     }
     s
 }
 
 fn run_workload(wl: &Workload, out: &mut Out, source: &str) {
+    if std::env::var("C09_DEBUG").is_ok() {
+        eprintln!("{}", op_line(wl).split(" W ").next().unwrap_or("").to_string() + " :: " + &wl.groups.iter().map(|g| g.iter().map(|m| m.kind()).collect::<Vec<_>>().join(",")).collect::<Vec<_>>().join(" | "));
+    }
     let r = run_real(wl);
-    let by_data: HashMap<Vec<u8>, u64> = wl.groups.iter().flatten().map(|w| (w.data.clone(), w.id)).collect();
+    let by_data: HashMap<Vec<u8>, u64> = wl.writes().iter().map(|w| (w.data.clone(), w.id)).collect();
     let mut acks = r.acks.clone();
     acks.sort();
     let acks_s: Vec<String> = acks.iter().map(|(i, a, _)| format!("{}={}", i, a)).collect();
@@ -301,14 +381,25 @@ fn run_workload(wl: &Workload, out: &mut Out, source: &str) {
     out.op(op_line(wl), format!("acks {} | trace {} | crash {}", acks_s.join(" "), r.trace.join(" "), crash_s.join(" ; ")));
 
     // distribution
-    let nw: usize = wl.groups.iter().map(|g| g.len()).sum();
+    let nw: usize = wl.writes().len();
+    // message kind x position in its burst, and whether it sits between a failed append and the flush
+    for g in &wl.groups {
+        for (i, m) in g.iter().enumerate() {
+            out.count(&format!("msg:{}:pos{}", m.kind(), i.min(4)));
+        }
+    }
+    for c in r.trace.iter() {
+        if c.starts_with('d') {
+            out.count(if c.ends_with(":ok") { "calls:delete" } else { "failed-call:delete" });
+        }
+    }
     out.count(&format!("writes:{}", nw.min(12)));
     out.count(&format!("faults:{}", wl.faults.len()));
     for (_, o) in &wl.faults {
         out.count(&format!("fault-kind:{}", match o { Outcome::Ok => "ok", Outcome::Fail => "fail", Outcome::Full => "full", Outcome::Torn(_) => "torn" }));
     }
     for c in &r.trace {
-        let k = if c.starts_with('c') { "create" } else if c.starts_with('a') { "append" } else { "sync" };
+        let k = if c.starts_with('c') { "create" } else if c.starts_with('a') { "append" } else if c.starts_with('d') { continue } else { "sync" };
         out.count_n(&format!("calls:{}", k), 1);
         if !c.ends_with(":ok") {
             out.count(&format!("failed-call:{}", k));
@@ -328,7 +419,12 @@ fn run_workload(wl: &Workload, out: &mut Out, source: &str) {
     let replay = json!({
         "max_file_size": wl.max_size, "group_commit_max_entries": wl.max_entries,
         "faults": wl.faults.iter().map(|(i, o)| format!("{}:{}", i, o.show())).collect::<Vec<_>>(),
-        "groups": wl.groups.iter().map(|g| g.iter().map(|w| format!("id {} ts {} key w{} ({} payload bytes)", w.id, w.ts, w.id, w.data.len())).collect::<Vec<_>>()).collect::<Vec<_>>(),
+        "groups": wl.groups.iter().map(|g| g.iter().map(|m| match m {
+            Msg::Durable(w) => format!("write_durable id {} ts {} key w{} ({} payload bytes)", w.id, w.ts, w.id, w.data.len()),
+            Msg::Forget(w) => format!("write_fire_and_forget id {} ts {}", w.id, w.ts),
+            Msg::Tick => "sync_tick".to_string(),
+            Msg::Truncate(t) => format!("truncate({})", t),
+        }).collect::<Vec<_>>()).collect::<Vec<_>>(),
         "acks": acks_s, "trace": r.trace, "recovered_at_each_crash_index": crash_s, "source": source,
     });
     out.sample(replay.clone());
@@ -340,10 +436,16 @@ fn run_workload(wl: &Workload, out: &mut Out, source: &str) {
             continue;
         }
         let ids = id.to_string();
+        // the caller itself asked the WAL to forget entries stamped <= T (truncate): exempt
+        let wts = wl.durable().iter().find(|w| w.id == *id).map(|w| w.ts).unwrap_or(u64::MAX);
+        if wl.max_truncate().map(|t| wts <= t).unwrap_or(false) {
+            out.count("oracle-exempt:stamp-below-a-truncate-threshold");
+            continue;
+        }
         for t in *seen_at..rec.len() {
             if !rec[t].contains(&ids) {
                 // why was the file holding it not covered?  look at what happened to its writer
-                let w = wl.groups.iter().flatten().find(|w| w.id == *id).unwrap();
+                let w = *wl.durable().iter().find(|w| w.id == *id).unwrap();
                 let file = r.files.iter().find(|(_, d)| d.windows(w.data.len()).any(|x| x == &w.data[..])).and_then(|(n, _)| parse_seq(n));
                 let class = match file {
                     None => "other",
@@ -372,20 +474,36 @@ fn run_workload(wl: &Workload, out: &mut Out, source: &str) {
 
 fn gen_workload(rng: &mut Rng, next_id: &mut u64) -> Workload {
     let ng = rng.range(1, 4) as usize;
-    let mut groups = Vec::new();
+    let mut groups: Vec<Vec<Msg>> = Vec::new();
     let vlen = rng.range(1, 3) as usize;
     let vary = rng.chance(1, 3); // entries of different sizes: rotation points move inside batches
+    // which non-write messages this workload mixes in (every public message of WalActorHandle)
+    let with_ticks = rng.chance(1, 2);
+    let with_forget = rng.chance(1, 3);
+    let with_truncate = rng.chance(1, 4);
     for _ in 0..ng {
-        let n = rng.range(1, 4) as usize;
+        let n = rng.range(1, 5) as usize;
         let mut g = Vec::new();
         for _ in 0..n {
-            *next_id += 1;
-            let l = if vary { rng.range(0, 40) as usize } else { vlen };
-            g.push(mk_write(*next_id, if rng.chance(1, 10) { u64::MAX } else { rng.below(50) }, l));
+            let k = rng.below(10);
+            if with_ticks && k < 2 {
+                g.push(Msg::Tick);
+            } else if with_truncate && k == 2 {
+                g.push(Msg::Truncate(*rng.pick(&[0u64, 5, 20, 49, 50, u64::MAX - 1])));
+            } else {
+                *next_id += 1;
+                let l = if vary { rng.range(0, 40) as usize } else { vlen };
+                let w = mk_write(*next_id, if rng.chance(1, 10) { u64::MAX } else { rng.below(50) }, l);
+                g.push(if with_forget && k == 3 { Msg::Forget(w) } else { Msg::Durable(w) });
+            }
         }
         groups.push(g);
     }
-    let esz = 16 + groups[0][0].data.len();
+    if groups.iter().flatten().all(|m| m.write().is_none()) {
+        *next_id += 1;
+        groups[0].insert(0, Msg::Durable(mk_write(*next_id, 1, vlen)));
+    }
+    let esz = 16 + groups.iter().flatten().find_map(|m| m.write()).unwrap().data.len();
     // rotation thresholds: every entry its own file / header + k entries (+-1) / one file
     let max_size = match rng.below(7) {
         0 => 17,
@@ -431,19 +549,35 @@ pub fn run(a: &Args) {
     // "WAL rotator fsyncs a writer before dropping it": they must PASS now — the oracle below is
     // unconditional): one entry per file, one burst of 3 writers
     {
-        let g: Vec<W> = (1..=3).map(|i| mk_write(i, i, 1)).collect();
+        let g: Vec<Msg> = (1..=3).map(|i| Msg::Durable(mk_write(i, i, 1))).collect();
         let wl = Workload { max_size: 17, max_entries: 8, faults: vec![], groups: vec![g] };
         let before = out.oracle.len();
         run_workload(&wl, &mut out, "corpus:batch-straddles-rotation");
         out.count(if out.oracle.len() == before { "corpus:batch-straddles-rotation:pass" } else { "corpus:batch-straddles-rotation:FAIL" });
         // an append error in the middle of a batch: the earlier entry of the batch is acked Ok
         // although its file is never fsynced (calls: create, header, entry 1, entry 2 <- fails)
-        let g: Vec<W> = (4..=5).map(|i| mk_write(i, i, 1)).collect();
+        let g: Vec<Msg> = (4..=5).map(|i| Msg::Durable(mk_write(i, i, 1))).collect();
         let wl = Workload { max_size: 1 << 20, max_entries: 8, faults: vec![(3, Outcome::Fail)], groups: vec![g] };
         let before = out.oracle.len();
         run_workload(&wl, &mut out, "corpus:append-error-then-sync-ok");
         out.count(if out.oracle.len() == before { "corpus:append-error-then-sync-ok:pass" } else { "corpus:append-error-then-sync-ok:FAIL" });
-        next_id = 5;
+        // a SyncTick between a mid-batch append fault and the group-commit flush (seeded change
+        // "sync tick consumes the dropped-writer flag"): A appended, B's append fails (call 3), tick,
+        // C goes to the next file, flush -> A must not be acknowledged Ok unless it is recoverable
+        for fault in [Outcome::Fail, Outcome::Full, Outcome::Torn(7)] {
+            let g = vec![Msg::Durable(mk_write(6, 6, 1)), Msg::Durable(mk_write(7, 7, 1)), Msg::Tick, Msg::Durable(mk_write(8, 8, 1))];
+            let wl = Workload { max_size: 1 << 20, max_entries: 8, faults: vec![(3, fault)], groups: vec![g] };
+            let before = out.oracle.len();
+            run_workload(&wl, &mut out, "corpus:tick-between-append-fault-and-flush");
+            out.count(if out.oracle.len() == before { "corpus:tick-between-append-fault-and-flush:pass" } else { "corpus:tick-between-append-fault-and-flush:FAIL" });
+        }
+        // every other public message in the same position
+        for m in [Msg::Truncate(0), Msg::Truncate(u64::MAX - 1), Msg::Forget(mk_write(9, 9, 1))] {
+            let g = vec![Msg::Durable(mk_write(10, 10, 1)), Msg::Durable(mk_write(11, 11, 1)), m, Msg::Durable(mk_write(12, 12, 1))];
+            let wl = Workload { max_size: 1 << 20, max_entries: 8, faults: vec![(3, Outcome::Fail)], groups: vec![g] };
+            run_workload(&wl, &mut out, "corpus:message-between-append-fault-and-flush");
+        }
+        next_id = 12;
     }
     for _ in 0..a.n {
         let wl = gen_workload(&mut rng, &mut next_id);
